@@ -12,11 +12,26 @@ class KeyPolicy(codec.FramePolicy):
     """FramePolicy + specialisation of one dispatch-table lookup to a chosen
     key (used to analyse frame.unmarshal for one method class at a time)."""
 
-    def __init__(self, prog, table_name=None, key=None):
+    def __init__(self, prog, table_name=None, key=None, assume_type=None):
         super().__init__(prog)
         self.table_name = table_name
         self.key = key
         self.key_terms = []
+        self.assume_type = assume_type  # analyse only this frame kind
+        self.data = None
+
+    def decide_hook(self, interp, atom, state):
+        if self.assume_type is None or self.data is None:
+            return None
+        if isinstance(atom, Sym) and atom.op in ('eq', 'ne') and \
+                isinstance(atom.args[1], int) and \
+                not isinstance(atom.args[1], bool):
+            r = parse_unpack_read(atom.args[0], self.data)
+            if r is not None and r[1] == 0 and r[2] == 0 and \
+                    len(T.fmt(r[0]).values) == 3:
+                return (atom.args[1] == self.assume_type) == \
+                    (atom.op == 'eq')
+        return None
 
     def choose_key(self, interp, table_ref, obj, keyterm, state):
         if self.key is None:
